@@ -46,13 +46,21 @@ theorem applyNotes_last_ended (ns : List Line) : ∀ runs : List Run,
 
 def tag (i : Nat) (l : Line) : Line := { l with owner := some i }
 
+/-- the lines `_make_response` hands to the front end as content -/
+def contentOf (ls : List Line) : List Line :=
+  (ls.filter (fun x : Line => !x.empty)).filter (fun x : Line => x.cls == Cls.content)
+
+/-- the complete, non-empty content lines among what the processor wrote for an input -/
+def completeContent (it : Item) : List Line :=
+  it.out.filter (fun l : Line => l.nl && !l.runNote && !l.empty && l.cls == Cls.content)
+
 theorem tag_hits (i : Nat) (l : Line) (t : Terminus) : (tag i l).hits t = l.hits t := by
   cases t <;> rfl
 
-theorem readLines_tag (t : Terminus) (d : Bool) (i : Nat) : ∀ (buf : List Line) (n : Nat),
-    readLines t d (buf.map (tag i)) n =
-      { lines := (readLines t d buf n).lines.map (tag i), notes := (readLines t d buf n).notes.map (tag i),
-        rest := (readLines t d buf n).rest.map (tag i), stop := (readLines t d buf n).stop } := by
+theorem readLines_tag (t : Terminus) (d p : Bool) (i : Nat) : ∀ (buf : List Line) (n : Nat),
+    readLines t d p (buf.map (tag i)) n =
+      { lines := (readLines t d p buf n).lines.map (tag i), notes := (readLines t d p buf n).notes.map (tag i),
+        rest := (readLines t d p buf n).rest.map (tag i), stop := (readLines t d p buf n).stop } := by
   intro buf
   induction buf with
   | nil => intro n; cases n <;> simp [readLines]
@@ -63,15 +71,19 @@ theorem readLines_tag (t : Terminus) (d : Bool) (i : Nat) : ∀ (buf : List Line
     | succ n =>
       simp only [List.map_cons, readLines]
       have hrn : (tag i l).runNote = l.runNote := rfl
-      rw [hrn, tag_hits]
+      have hnl : (tag i l).nl = l.nl := rfl
+      rw [hrn, hnl, tag_hits]
       by_cases h : l.runNote = true
       · simp only [h, if_true]; rw [ih]; simp
-      · simp only [h]; rw [ih (if l.hits t = true then n else n + 1)]; simp
+      · simp only [h]
+        by_cases h2 : (!p && !l.nl) = true
+        · simp only [h2, if_true]; rw [ih]; simp
+        · simp only [h2]; rw [ih (if l.hits t = true then n else n + 1)]; simp
 
-theorem readLines_pre (t : Terminus) (d : Bool) : ∀ (pre : List Line) (b : List Line) (n : Nat),
+theorem readLines_pre (t : Terminus) (d p : Bool) : ∀ (pre : List Line) (b : List Line) (n : Nat),
     (∀ l ∈ pre, l.runNote = true) →
-    readLines t d (pre ++ b) (n + 1) =
-      { readLines t d b (n + 1) with notes := pre ++ (readLines t d b (n + 1)).notes } := by
+    readLines t d p (pre ++ b) (n + 1) =
+      { readLines t d p b (n + 1) with notes := pre ++ (readLines t d p b (n + 1)).notes } := by
   intro pre
   induction pre with
   | nil => intro b n _; simp
@@ -81,8 +93,8 @@ theorem readLines_pre (t : Terminus) (d : Bool) : ∀ (pre : List Line) (b : Lis
     have := ih b n (fun x hx => h x (by simp [hx]))
     simp only [List.cons_append, readLines, hl, if_true, this]
 
-theorem readLines_rest_nil (t : Terminus) (d : Bool) : ∀ (buf : List Line) (n : Nat),
-    (readLines t d buf n).stop ≠ .done → (readLines t d buf n).rest = [] := by
+theorem readLines_rest_nil (t : Terminus) (d p : Bool) : ∀ (buf : List Line) (n : Nat),
+    (readLines t d p buf n).stop ≠ .done → (readLines t d p buf n).rest = [] := by
   intro buf
   induction buf with
   | nil => intro n; cases n <;> simp [readLines]
@@ -94,10 +106,12 @@ theorem readLines_rest_nil (t : Terminus) (d : Bool) : ∀ (buf : List Line) (n 
       simp only [readLines]
       split
       · exact ih (n + 1)
-      · exact ih _
+      · split
+        · exact ih (n + 1)
+        · exact ih _
 
-theorem readLines_not_hang (t : Terminus) : ∀ (buf : List Line) (n : Nat),
-    (readLines t true buf n).stop ≠ .hang := by
+theorem readLines_not_hang (t : Terminus) (p : Bool) : ∀ (buf : List Line) (n : Nat),
+    (readLines t true p buf n).stop ≠ .hang := by
   intro buf
   induction buf with
   | nil => intro n; cases n <;> simp [readLines]
@@ -109,11 +123,13 @@ theorem readLines_not_hang (t : Terminus) : ∀ (buf : List Line) (n : Nat),
       simp only [readLines]
       split
       · exact ih (n + 1)
-      · exact ih _
+      · split
+        · exact ih (n + 1)
+        · exact ih _
 
-theorem readLines_notes_only (t : Terminus) (d : Bool) : ∀ (buf : List Line) (n : Nat),
-    (∀ l ∈ buf, l.runNote = true) → (readLines t d buf n).lines = [] ∧
-      ((readLines t d buf n).stop = .done ∨ (readLines t d buf n).rest = []) := by
+theorem readLines_notes_only (t : Terminus) (d p : Bool) : ∀ (buf : List Line) (n : Nat),
+    (∀ l ∈ buf, l.runNote = true) → (readLines t d p buf n).lines = [] ∧
+      ((readLines t d p buf n).stop = .done ∨ (readLines t d p buf n).rest = []) := by
   intro buf
   induction buf with
   | nil => intro n _; cases n <;> simp [readLines]
@@ -126,8 +142,8 @@ theorem readLines_notes_only (t : Terminus) (d : Bool) : ∀ (buf : List Line) (
       simp only [readLines, hl, if_true]
       exact ih (n + 1) (fun x hx => h x (by simp [hx]))
 
-theorem readLines_rest_sub (t : Terminus) (d : Bool) : ∀ (buf : List Line) (n : Nat),
-    ∀ l ∈ (readLines t d buf n).rest, l ∈ buf := by
+theorem readLines_rest_sub (t : Terminus) (d p : Bool) : ∀ (buf : List Line) (n : Nat),
+    ∀ l ∈ (readLines t d p buf n).rest, l ∈ buf := by
   intro buf
   induction buf with
   | nil => intro n; cases n <;> simp [readLines]
@@ -139,7 +155,47 @@ theorem readLines_rest_sub (t : Terminus) (d : Bool) : ∀ (buf : List Line) (n 
       simp only [readLines]
       split
       · intro x hx; exact List.mem_cons_of_mem _ (ih (n + 1) x hx)
-      · intro x hx; exact List.mem_cons_of_mem _ (ih _ x hx)
+      · split
+        · intro x hx; exact List.mem_cons_of_mem _ (ih (n + 1) x hx)
+        · intro x hx; exact List.mem_cons_of_mem _ (ih _ x hx)
+
+/-- the lines that are kept come from the buffer, are not run notes and — unless the caller asked for
+partial lines — are complete -/
+theorem readLines_lines_sub (t : Terminus) (d p : Bool) : ∀ (buf : List Line) (n : Nat),
+    ∀ l ∈ (readLines t d p buf n).lines, l ∈ buf ∧ l.runNote = false ∧ (p = false → l.nl = true) := by
+  intro buf
+  induction buf with
+  | nil => intro n; cases n <;> simp [readLines]
+  | cons l buf ih =>
+    intro n
+    cases n with
+    | zero => simp [readLines]
+    | succ n =>
+      simp only [readLines]
+      by_cases h : l.runNote = true
+      · simp only [h, if_true]
+        intro x hx
+        have := ih (n + 1) x hx
+        exact ⟨List.mem_cons_of_mem _ this.1, this.2⟩
+      · simp only [h]
+        by_cases h2 : (!p && !l.nl) = true
+        · simp only [h2, if_true]
+          intro x hx
+          have := ih (n + 1) x hx
+          exact ⟨List.mem_cons_of_mem _ this.1, this.2⟩
+        · simp only [h2]
+          intro x hx
+          have hx' : x = l ∨ x ∈ (readLines t d p buf (if l.hits t = true then n else n + 1)).lines := by
+            simpa using hx
+          cases hx' with
+          | inl hx =>
+            subst hx
+            refine ⟨by simp, by simpa using h, ?_⟩
+            intro hp; subst hp
+            simpa using h2
+          | inr hx =>
+            have := ih _ x hx
+            exact ⟨List.mem_cons_of_mem _ this.1, this.2⟩
 
 end Verif.C19
 
@@ -301,9 +357,9 @@ theorem termini_ne_nil (c : Cfg) : ∃ t ts, termini c = t :: ts := by
 after the terminator of an answer -/
 def WF (c : Cfg) (it : Item) : Prop :=
   ∀ t ts, termini c = t :: ts →
-    (readLines t it.die.isSome it.out (ts.length + 1)).stop ≠ .hang ∧
-    ((readLines t it.die.isSome it.out (ts.length + 1)).stop = .done →
-      (readLines t it.die.isSome it.out (ts.length + 1)).rest = [])
+    (readLines t it.die.isSome (usesTsdb c) it.out (ts.length + 1)).stop ≠ .hang ∧
+    ((readLines t it.die.isSome (usesTsdb c) it.out (ts.length + 1)).stop = .done →
+      (readLines t it.die.isSome (usesTsdb c) it.out (ts.length + 1)).rest = [])
 
 theorem closeProc_spec (c : Cfg) (s : St) :
     (closeProc c s).2.runs.length = s.runs.length ∧ (closeProc c s).2.proc.waited = true
@@ -396,8 +452,15 @@ structure RecvPost (c : Cfg) (inp : List Char) (s1 s2 : St) (o : Except Err Resp
   ok_input : ∀ r, o = .ok r → r.input = inp ∧ r.run = curRun s1 ∧ r.skipped = false
   ok_eof : ∀ r, o = .ok r → r.eof = true → 2 * s1.runs.length + 1 ≤ level s2
   ok_src : ∀ r, o = .ok r → r.src = lines.map (·.owner)
-  ok_empty : lines = [] → ∃ r, o = .ok r ∧ r.isEmpty = true
+  ok_nl : ∀ r, o = .ok r → r.srcNl = lines.map (·.nl)
+  ok_empty : contentOf lines = [] → ∃ r, o = .ok r ∧ r.isEmpty = true
   err_only : ∀ e, o = .error e → e = .unmodelled ∧ usesTsdb c = true
+
+theorem fixSurface_srcNl (r : Resp) : (fixSurface r).srcNl = r.srcNl := by
+  unfold fixSurface
+  split
+  · split <;> rfl
+  · rfl
 
 theorem fixSurface_fields (r : Resp) :
     (fixSurface r).input = r.input ∧ (fixSurface r).run = r.run ∧ (fixSurface r).skipped = r.skipped
@@ -428,20 +491,21 @@ theorem recv_tail (c : Cfg) (inp : List Char) (s1 sA : St) (all : List Line) (eo
     = dres
   cases dres with
   | error e =>
-    refine ⟨har.1, Nat.le_trans hlev har.2.1, Nat.le_trans hruns har.2.2, ?_, ?_, ?_, ?_, ?_⟩
+    refine ⟨har.1, Nat.le_trans hlev har.2.1, Nat.le_trans hruns har.2.2, ?_, ?_, ?_, ?_, ?_, ?_⟩
+    · intro r' h; cases h
     · intro r' h; cases h
     · intro r' h; cases h
     · intro r' h; cases h
     · intro hl
-      subst hl
+      unfold contentOf at hl
       obtain ⟨rs, hrs, _⟩ := hnil
-      simp only [List.filter_nil] at hd; rw [hrs] at hd; cases hd
+      rw [hl, hrs] at hd; cases hd
     · intro e' he'
       injection he' with he'
       subst he'
       exact decode_err c _ _ hd
   | ok rs =>
-    refine ⟨har.1, Nat.le_trans hlev har.2.1, Nat.le_trans hruns har.2.2, ?_, ?_, ?_, ?_, ?_⟩
+    refine ⟨har.1, Nat.le_trans hlev har.2.1, Nat.le_trans hruns har.2.2, ?_, ?_, ?_, ?_, ?_, ?_⟩
     · intro r' h; injection h with h; subst h
       have hf := fixSurface_fields
         { baseResp inp (curRun s1) (all.filter (fun x : Line => !x.empty)) all eof with results := rs }
@@ -454,10 +518,12 @@ theorem recv_tail (c : Cfg) (inp : List Char) (s1 sA : St) (all : List Line) (eo
       exact Nat.le_trans (heof this) har.2.1
     · intro r' h; injection h with h; subst h
       exact (fixSurface_fields _).2.2.2.2.1
+    · intro r' h; injection h with h; subst h
+      exact fixSurface_srcNl _
     · intro hl
-      subst hl
+      unfold contentOf at hl
       obtain ⟨rs0, hrs, hemp⟩ := hnil
-      simp only [List.filter_nil] at hd; rw [hrs] at hd; injection hd with hd; subst hd
+      rw [hl, hrs] at hd; injection hd with hd; subst hd
       refine ⟨_, rfl, ?_⟩
       rw [(fixSurface_fields _).2.2.2.2.2]
       exact hemp
@@ -465,13 +531,13 @@ theorem recv_tail (c : Cfg) (inp : List Char) (s1 sA : St) (all : List Line) (eo
 
 theorem receive_spec (c : Cfg) (inp : List Char) (s1 : St) (t : Terminus) (ts : List Terminus)
     (ht : termini c = t :: ts)
-    (hrest : ∀ l ∈ (readLines t s1.proc.dying s1.proc.buf (ts.length + 1)).rest, l.runNote = true)
-    (hnh : (readLines t s1.proc.dying s1.proc.buf (ts.length + 1)).stop ≠ .hang) :
+    (hrest : ∀ l ∈ (readLines t s1.proc.dying (usesTsdb c) s1.proc.buf (ts.length + 1)).rest, l.runNote = true)
+    (hnh : (readLines t s1.proc.dying (usesTsdb c) s1.proc.buf (ts.length + 1)).stop ≠ .hang) :
     RecvPost c inp s1 (receive c inp s1).1 (receive c inp s1).2
-      (readLines t s1.proc.dying s1.proc.buf (ts.length + 1)).lines := by
+      (readLines t s1.proc.dying (usesTsdb c) s1.proc.buf (ts.length + 1)).lines := by
   unfold receive resultLines
   simp only [ht]
-  generalize hr : readLines t s1.proc.dying s1.proc.buf (ts.length + 1) = r at hrest hnh
+  generalize hr : readLines t s1.proc.dying (usesTsdb c) s1.proc.buf (ts.length + 1) = r at hrest hnh
   have hfold : ({ s1 with proc := { s1.proc with buf := r.rest }, runs := applyNotes r.notes s1.runs } : St)
       = afterLines s1 r := rfl
   rw [hfold]
@@ -505,33 +571,59 @@ structure StepPost (c : Cfg) (i : Nat) (it : Item) (s s' : St) (o : Except Err R
   ok_sent : ∀ r, o = .ok r → r.skipped = false → s.runs.length + wbit s ≤ r.run + 1
   ok_eof : ∀ r, o = .ok r → r.eof = true → 2 * (r.run + 1) + 1 ≤ level s'
   ok_empty : ∀ r, o = .ok r → (r.served = false ∨ it.out = []) → r.src = [] ∧ r.isEmpty = true
+  ok_complete : ∀ r, o = .ok r → usesTsdb c = false →
+      (∀ b ∈ r.srcNl, b = true) ∧ (completeContent it = [] → r.isEmpty = true)
   ok_skipped : ∀ r, o = .ok r → (r.skipped = true ↔ validate c.front it.text = none)
   err_only : ∀ e, o = .error e → e = .unmodelled ∧ usesTsdb c = true
+
+theorem contentOf_map_tag (i : Nat) (ls : List Line) : contentOf (ls.map (tag i)) = (contentOf ls).map (tag i) := by
+  unfold contentOf
+  induction ls with
+  | nil => rfl
+  | cons l r ih =>
+    have h1 : (tag i l).empty = l.empty := rfl
+    have h2 : (tag i l).cls = l.cls := rfl
+    simp only [List.map_cons, List.filter_cons, h1]
+    by_cases he : l.empty = true
+    · simp only [he, Bool.not_true, Bool.false_eq_true, if_false]; exact ih
+    · have he' : l.empty = false := by simpa using he
+      simp only [he', Bool.not_false, if_true, List.filter_cons, h2]
+      by_cases hc : (l.cls == Cls.content) = true
+      · simp only [hc, if_true, List.map_cons, ih]
+      · simp only [hc]; exact ih
 
 /-- facts about the lines `_result_lines` will see after a `send` -/
 theorem lines_after_send (c : Cfg) (i : Nat) (it : Item) (sv : Bool) (s1 : St) (n0 : Nat)
     (hp : SendPost i it n0 sv s1) (hwf : WF c it) (t : Terminus) (ts : List Terminus) (ht : termini c = t :: ts) :
-    (∀ l ∈ (readLines t s1.proc.dying s1.proc.buf (ts.length + 1)).rest, l.runNote = true) ∧
-    (readLines t s1.proc.dying s1.proc.buf (ts.length + 1)).stop ≠ .hang ∧
-    (∀ l ∈ (readLines t s1.proc.dying s1.proc.buf (ts.length + 1)).lines, l.owner = some i) ∧
-    ((sv = false ∨ it.out = []) → (readLines t s1.proc.dying s1.proc.buf (ts.length + 1)).lines = []) := by
+    (∀ l ∈ (readLines t s1.proc.dying (usesTsdb c) s1.proc.buf (ts.length + 1)).rest, l.runNote = true) ∧
+    (readLines t s1.proc.dying (usesTsdb c) s1.proc.buf (ts.length + 1)).stop ≠ .hang ∧
+    (∀ l ∈ (readLines t s1.proc.dying (usesTsdb c) s1.proc.buf (ts.length + 1)).lines, l.owner = some i) ∧
+    ((sv = false ∨ it.out = []) →
+      (readLines t s1.proc.dying (usesTsdb c) s1.proc.buf (ts.length + 1)).lines = []) ∧
+    (usesTsdb c = false →
+      (∀ l ∈ (readLines t s1.proc.dying (usesTsdb c) s1.proc.buf (ts.length + 1)).lines, l.nl = true) ∧
+      (completeContent it = [] →
+        contentOf (readLines t s1.proc.dying (usesTsdb c) s1.proc.buf (ts.length + 1)).lines = [])) := by
   cases sv with
   | false =>
     obtain ⟨hinv, hd⟩ := hp.voidBuf rfl
     rw [hd]
-    have h1 := readLines_notes_only t true s1.proc.buf (ts.length + 1) hinv
-    refine ⟨?_, readLines_not_hang t _ _, ?_, fun _ => h1.1⟩
-    · intro l hl; exact hinv l (readLines_rest_sub t true _ _ l hl)
+    have h1 := readLines_notes_only t true (usesTsdb c) s1.proc.buf (ts.length + 1) hinv
+    refine ⟨?_, readLines_not_hang t _ _ _, ?_, fun _ => h1.1, fun _ => ⟨?_, fun _ => ?_⟩⟩
+    · intro l hl; exact hinv l (readLines_rest_sub t true _ _ _ l hl)
     · intro l hl; rw [h1.1] at hl; cases hl
+    · intro l hl; rw [h1.1] at hl; cases hl
+    · rw [h1.1]; rfl
   | true =>
     obtain ⟨pre, hpre, hbuf, hd⟩ := hp.servedBuf rfl
-    rw [hbuf, hd, readLines_pre t _ pre _ _ hpre, readLines_tag]
+    rw [hbuf, hd, readLines_pre t _ _ pre _ _ hpre, readLines_tag]
     obtain ⟨hnh, hdone⟩ := hwf t ts ht
-    have hrest : (readLines t it.die.isSome it.out (ts.length + 1)).rest = [] := by
-      by_cases h : (readLines t it.die.isSome it.out (ts.length + 1)).stop = .done
+    have hrest : (readLines t it.die.isSome (usesTsdb c) it.out (ts.length + 1)).rest = [] := by
+      by_cases h : (readLines t it.die.isSome (usesTsdb c) it.out (ts.length + 1)).stop = .done
       · exact hdone h
-      · exact readLines_rest_nil t _ _ _ h
-    refine ⟨?_, hnh, ?_, ?_⟩
+      · exact readLines_rest_nil t _ _ _ _ h
+    have hsub := readLines_lines_sub t it.die.isSome (usesTsdb c) it.out (ts.length + 1)
+    refine ⟨?_, hnh, ?_, ?_, ?_⟩
     · intro l hl; simp only [hrest, List.map_nil] at hl; cases hl
     · intro l hl
       simp only [List.mem_map] at hl
@@ -541,24 +633,51 @@ theorem lines_after_send (c : Cfg) (i : Nat) (it : Item) (sv : Bool) (s1 : St) (
       cases h with
       | inl h => cases h
       | inr h => simp [h, readLines]
+    · intro hu
+      refine ⟨?_, ?_⟩
+      · intro l hl
+        simp only [List.mem_map] at hl
+        obtain ⟨l0, hl0, rfl⟩ := hl
+        exact (hsub l0 hl0).2.2 hu
+      · intro hcc
+        show contentOf (List.map (tag i) _) = []
+        rw [contentOf_map_tag]
+        have : contentOf (readLines t it.die.isSome (usesTsdb c) it.out (ts.length + 1)).lines = [] := by
+          rw [List.eq_nil_iff_forall_not_mem]
+          intro l hl
+          unfold contentOf at hl
+          simp only [List.mem_filter] at hl
+          obtain ⟨⟨hl1, hl2⟩, hl3⟩ := hl
+          obtain ⟨hm, hrn, hnl⟩ := hsub l hl1
+          have : l ∈ completeContent it := by
+            unfold completeContent
+            simp only [List.mem_filter]
+            refine ⟨hm, ?_⟩
+            simp [hnl hu, hrn, hl3]
+            simpa using hl2
+          rw [hcc] at this
+          cases this
+        rw [this]; rfl
 
 theorem interact_spec (c : Cfg) (i : Nat) (it : Item) (s : St) (hinv : Inv s) (hne : s.runs ≠ [])
     (hwf : WF c it) : StepPost c i it s (interact c i it s).1 (interact c i it s).2 := by
   unfold interact
   cases hv : validate c.front it.text with
   | none =>
-    refine ⟨hinv, Nat.le_refl _, Nat.le_refl _, ?_, ?_, ?_, ?_, ?_, ?_⟩
+    refine ⟨hinv, Nat.le_refl _, Nat.le_refl _, ?_, ?_, ?_, ?_, ?_, ?_, ?_⟩
     · intro r h; injection h with h; subst h; exact ⟨rfl, by intro ow h; cases h⟩
     · intro r h hs; injection h with h; subst h; cases hs
     · intro r h he; injection h with h; subst h; cases he
     · intro r h _; injection h with h; subst h; exact ⟨rfl, rfl⟩
+    · intro r h _; injection h with h; subst h
+      exact ⟨(by intro b hb; cases hb), fun _ => rfl⟩
     · intro r h; injection h with h; subst h; simp [hv]
     · intro e h; cases h
   | some v =>
     obtain ⟨sv, s1, he, hpost⟩ := send_spec c i it s hinv
     simp only [he]
     obtain ⟨t, ts, ht⟩ := termini_ne_nil c
-    obtain ⟨h1, h2, h3, h4⟩ := lines_after_send c i it sv s1 _ hpost hwf t ts ht
+    obtain ⟨h1, h2, h3, h4, h5⟩ := lines_after_send c i it sv s1 _ hpost hwf t ts ht
     have hr := receive_spec c it.text s1 t ts ht h1 h2
     have hge := hpost.runs_ge
     have hpos : 1 ≤ s1.runs.length := by
@@ -574,7 +693,8 @@ theorem interact_spec (c : Cfg) (i : Nat) (it : Item) (s : St) (hinv : Inv s) (h
     cases o2 with
     | error e =>
       dsimp only at hr ⊢
-      refine ⟨hr.inv, Nat.le_trans hlev hr.level_mono, by have := hr.runs_mono; omega, ?_, ?_, ?_, ?_, ?_, ?_⟩
+      refine ⟨hr.inv, Nat.le_trans hlev hr.level_mono, by have := hr.runs_mono; omega, ?_, ?_, ?_, ?_, ?_, ?_, ?_⟩
+      · intro r h; cases h
       · intro r h; cases h
       · intro r h; cases h
       · intro r h; cases h
@@ -585,7 +705,7 @@ theorem interact_spec (c : Cfg) (i : Nat) (it : Item) (s : St) (hinv : Inv s) (h
       dsimp only at hr ⊢
       obtain ⟨hi1, hi2, hi3⟩ := hr.ok_input r0 rfl
       have hsrc := hr.ok_src r0 rfl
-      refine ⟨hr.inv, Nat.le_trans hlev hr.level_mono, by have := hr.runs_mono; omega, ?_, ?_, ?_, ?_, ?_, ?_⟩
+      refine ⟨hr.inv, Nat.le_trans hlev hr.level_mono, by have := hr.runs_mono; omega, ?_, ?_, ?_, ?_, ?_, ?_, ?_⟩
       · intro r h; injection h with h; subst h
         refine ⟨hi1, ?_⟩
         intro ow how
@@ -599,10 +719,22 @@ theorem interact_spec (c : Cfg) (i : Nat) (it : Item) (s : St) (hinv : Inv s) (h
         simp only [hi2, curRun]; omega
       · intro r h hor; injection h with h; subst h
         have hl := h4 (by simpa using hor)
-        obtain ⟨r1, hr1, hemp⟩ := hr.ok_empty hl
+        obtain ⟨r1, hr1, hemp⟩ := hr.ok_empty (by rw [hl]; rfl)
         injection hr1 with hr1; subst hr1
         refine ⟨by simp [hsrc, hl], ?_⟩
         simpa [Resp.isEmpty] using hemp
+      · intro r h hu; injection h with h; subst h
+        obtain ⟨h5a, h5b⟩ := h5 hu
+        refine ⟨?_, ?_⟩
+        · intro b hb
+          rw [hr.ok_nl r0 rfl] at hb
+          simp only [List.mem_map] at hb
+          obtain ⟨l, hl, rfl⟩ := hb
+          exact h5a l hl
+        · intro hcc
+          obtain ⟨r1, hr1, hemp⟩ := hr.ok_empty (h5b hcc)
+          injection hr1 with hr1; subst hr1
+          simpa [Resp.isEmpty] using hemp
       · intro r h; injection h with h; subst h; simp [hi3, hv]
       · intro e h; cases h
 
@@ -621,7 +753,8 @@ structure RunPost (c : Cfg) (k : Nat) (items : List Item) (s : St) (os : List (E
   runs_ne : s'.runs ≠ []
   ok : ∀ (j : Nat) (r : Resp), os[j]? = some (Except.ok r) → ∃ it, items[j]? = some it ∧ r.input = it.text ∧
         (∀ ow ∈ r.src, ow = some (k + j)) ∧ (r.skipped = true ↔ validate c.front it.text = none) ∧
-        ((r.served = false ∨ it.out = []) → r.src = [] ∧ r.isEmpty = true)
+        ((r.served = false ∨ it.out = []) → r.src = [] ∧ r.isEmpty = true) ∧
+        (usesTsdb c = false → (∀ b ∈ r.srcNl, b = true) ∧ (completeContent it = [] → r.isEmpty = true))
   err : ∀ (j : Nat) (e : Err), os[j]? = some (Except.error e) → e = Err.unmodelled ∧ usesTsdb c = true
   sent_level : ∀ (j : Nat) (r : Resp), os[j]? = some (Except.ok r) → r.skipped = false → level s ≤ 2 * (r.run + 1)
   restart : ∀ (i j : Nat) (ri rj : Resp), i < j → os[i]? = some (Except.ok ri) → ri.eof = true → os[j]? = some (Except.ok rj) →
@@ -661,11 +794,11 @@ theorem runFrom_spec (c : Cfg) : ∀ (items : List Item) (k : Nat) (s : St), Inv
         simp only [List.getElem?_cons_zero, Option.some.injEq] at hj
         subst hj
         obtain ⟨h1, h2⟩ := hst.ok_input r rfl
-        exact ⟨it, rfl, h1, by simpa using h2, hst.ok_skipped r rfl, hst.ok_empty r rfl⟩
+        exact ⟨it, rfl, h1, by simpa using h2, hst.ok_skipped r rfl, hst.ok_empty r rfl, hst.ok_complete r rfl⟩
       | succ j =>
         simp only [List.getElem?_cons_succ] at hj
-        obtain ⟨it', h1, h2, h3, h4, h5⟩ := hrec.ok j r hj
-        refine ⟨it', by simpa using h1, h2, ?_, h4, h5⟩
+        obtain ⟨it', h1, h2, h3, h4, h5, h6⟩ := hrec.ok j r hj
+        refine ⟨it', by simpa using h1, h2, ?_, h4, h5, h6⟩
         intro ow how
         rw [h3 ow how]
         congr 1
